@@ -161,7 +161,12 @@ pub fn gen_chardef(rng: &mut Rng, cfg: &GenCfg) -> (String, Vec<CateSpec>, bool)
             length: rng.below(3) as u32,
         });
     }
-    let extra = rng.below(4);
+    // the category set is an 18-bit field: now and then 17, 18 (the most that fits), 19 or 20 categories in all
+    let extra = if rng.chance(1, 12) {
+        *rng.pick(&[17usize, 18, 18, 19, 19, 20]) - 1 - usize::from(has_space)
+    } else {
+        rng.below(4)
+    };
     for i in 0..extra {
         cates.push(CateSpec {
             name: format!("K{i}"),
